@@ -35,9 +35,12 @@ def as_graph(fd):
 
 
 def list_eq(a, b):
+    """the two descriptor lists hold the same descriptors (as multisets; the property does not fix their order)"""
     if len(a) != len(b):
         return False
-    return band(*[x == y for x, y in zip(a, b)])
+    import itertools
+    from ..symx import bor
+    return bor(*[band(*[x == b[i] for x, i in zip(a, p)]) for p in itertools.permutations(range(len(b)))]) if a else True
 
 
 class C08(core.Prop):
@@ -49,7 +52,7 @@ class C08(core.Prop):
              'compatible(): summarised']
     ASSUMPTIONS = ['fragment sets are obtained from the real reader on skeleton x descriptor holes (kind of 4, label 0-2 alnum, order 0-3) '
                    'and, for the coarse level, additionally constructed directly per the documented attribute contract',
-                   'descriptor lists are compared as ordered lists per atom']
+                   'descriptor lists are compared as multisets per atom']
     OUTSIDE = ['fragment graphs the reader cannot produce', 'descriptors of order 4 / aromatic order', 'more than 2 descriptors per atom (quick) / 3 (thorough)']
     BOUNDS = {
         'quick': '%d atomistic + %d coarse skeletons x every single insertion point x 1-2 descriptors; two-fragment sets; complete strings: C01 quick '
